@@ -756,6 +756,203 @@ def run_cap_boundary(case):
     return {"nt": nb > 0, "cls": cls, "err": 0.0}
 
 
+
+# ---------------------------------------------------------------------------
+# (c) environments
+# ---------------------------------------------------------------------------
+
+ENV_MODES = ["mps", "mps", "mps", "full-bond", "projector2d", "direct", "dm", "zipup", "fit", "src", "local-early",
+             "local-late", "projector", "su", "l2bp"]
+
+
+def complement_of(tn0, env, ndim=2):
+    """The part of the lattice an environment excludes: every original tensor whose site is not among the sites merged
+    into `env` (read from the site tags the environment tensors carry)."""
+    absorbed = set()
+    for t in env:
+        absorbed |= site_coords(t, ndim)
+    return [t for t in tn0 if not (site_coords(t, ndim) & absorbed)], absorbed
+
+
+def env_value(tn0, parts, exponent0):
+    """einsum of environment network(s) + the listed original tensors; exponents of the environments add, and -- as
+    the docstring of compute_environments says -- the exponent the lattice had before is not in them."""
+    arrs = []
+    expo = float(exponent0)
+    for p in parts:
+        if hasattr(p, "tensor_map"):
+            arrs += [(np.asarray(a, dtype=np.complex128), i) for a, i in tn_tensors(p)]
+            expo += float(np.real(p.exponent))
+        else:
+            arrs.append((np.asarray(p.data, dtype=np.complex128), tuple(p.inds)))
+    return np.asarray(einsum_value(arrs, ())) * 10.0 ** expo
+
+
+@st.composite
+def s_env_opts(draw, mode, lat):
+    o = {}
+    if draw(st.booleans()):
+        o["canonize"] = draw(st.booleans())
+    if mode != "full-bond" and draw(st.integers(0, 2)) == 0:
+        o["equalize_norms"] = draw(st.sampled_from([True, 1.0, False]))
+    if lat.get("layers", 1) == 2 and mode not in ("full-bond", "projector2d") and draw(st.booleans()):
+        o["layer_tags"] = draw(st.sampled_from([["KET", "BRA"], ["BRA", "KET"]]))
+    if draw(st.integers(0, 4)) == 0:
+        o["dense"] = True
+    if mode == "mps" and draw(st.integers(0, 3)) == 0:
+        o["compress_late"] = False
+    return o
+
+
+@st.composite
+def s_env_rowcol(draw, tier):
+    mode, lat = draw(s_mode_lat(tier, modes=ENV_MODES))
+    entry = draw(st.sampled_from(["x", "y", "xmin", "xmax", "ymin", "ymax"]))
+    case = {"lat": lat, "mode": mode, "entry": entry, "opts": draw(s_env_opts(mode, lat)),
+            "binding": draw(st.integers(0, 2)) == 0, "chi_frac": draw(st.floats(0.0, 1.0)), "given_dict": draw(st.booleans())}
+    if len(entry) > 1 and draw(st.integers(0, 2)) == 0:
+        # one-sided environments over a sub-range of rows / a strip of columns (as the plaquette code calls them)
+        xr, yr = draw(s_patch(lat, entry))
+        case["xrange"], case["yrange"] = xr, yr
+    if mode in SEEDED:
+        case["seed"] = draw(st.integers(0, 2**31 - 1))
+    return case
+
+
+def run_env_rowcol(case):
+    lat, mode, entry = case["lat"], case["mode"], case["entry"]
+    qtn = Q()
+    tn = build2d(lat)
+    ref, mag = reference(tn)
+    e0 = float(np.real(tn.exponent))
+    kw = boundary_kwargs(case)
+    exact = chi_exact(lat)
+    binding = bool(case["binding"]) and dlayer(lat) >= 2 and not kw.get("dense")
+    chi = binding_chi(case["chi_frac"], dlayer(lat) ** 2) if binding else exact
+    cutoff = 1e-10 if binding else 0.0
+    store = {} if case["given_dict"] else None
+    with rejecting(NotImplementedError, tag="unsupported:"):
+        if entry == "x":
+            envs = tn.compute_x_environments(max_bond=chi, cutoff=cutoff, mode=mode, envs=store, **kw)
+        elif entry == "y":
+            envs = tn.compute_y_environments(max_bond=chi, cutoff=cutoff, mode=mode, envs=store, **kw)
+        else:
+            xr = tuple(case["xrange"]) if case.get("xrange") is not None else None
+            yr = tuple(case["yrange"]) if case.get("yrange") is not None else None
+            spell = getattr(tn, "compute_%s_environments" % entry) if case["given_dict"] else None
+            if spell is not None:
+                envs = spell(xrange=xr, yrange=yr, max_bond=chi, cutoff=cutoff, mode=mode, envs=store, **kw)
+            else:
+                envs = tn.compute_environments(entry, xrange=xr, yrange=yr, max_bond=chi, cutoff=cutoff, mode=mode, **kw)
+    if store is not None and envs is not store:
+        raise Violation("envs-dict-not-used", entry=entry)
+    sides = {"x": ["xmin", "xmax"], "y": ["ymin", "ymax"]}.get(entry, [entry])
+    # expected keys: one per row (column) of the swept range
+    errs = [0.0]
+    nb_total = 0
+    for side in sides:
+        ax = 0 if side[0] == "x" else 1
+        rng = case.get("xrange") if ax == 0 else case.get("yrange")
+        lo, hi = (min(rng), max(rng)) if rng is not None else (0, (lat["Lx"], lat["Ly"])[ax] - 1)
+        want = {(side, i) for i in range(lo, hi + 1)}
+        got = {k for k in envs if k[0] == side}
+        if got != want:
+            raise Violation("env-keys", side=side, got=sorted(map(list, got)), want=sorted(map(list, want)), mode=mode)
+        for (_, i) in sorted(want):
+            env = envs[side, i]
+            if not isinstance(env, qtn.TensorNetwork):
+                raise Violation("env-not-network", key=[side, i])
+            rest, absorbed = complement_of(tn, env)
+            # an environment of row i holds nothing of row i or beyond (in sweep direction)
+            beyond = [c for c in absorbed if (c[ax] >= i if side.endswith("min") else c[ax] <= i)]
+            if beyond:
+                raise Violation("env-holds-own-row", key=[side, i], mode=mode)
+            if binding:
+                nb, _ = check_cap(env, chi, entry="env:" + side, mode=mode, layered=lat.get("layers", 1) == 2)
+                nb_total += nb
+            else:
+                v = env_value(tn, [env] + rest, e0)
+                errs.append(check_value(v, ref, mag, entry="env:" + side, mode=mode, key_offset=abs(i - (lo if side.endswith("min") else hi)),
+                                        equalize=repr(kw.get("equalize_norms", False)), dense=bool(kw.get("dense")),
+                                        layered=lat.get("layers", 1) == 2))
+    if not binding and entry in ("x", "y"):
+        # the two-sided statement of the docstring: envs[min, i] | row i | envs[max, i]
+        ax = 0 if entry == "x" else 1
+        for i in range((lat["Lx"], lat["Ly"])[ax]):
+            a, b = envs[sides[0], i], envs[sides[1], i]
+            row = [t for t in tn if any(c[ax] == i for c in site_coords(t))]
+            v = env_value(tn, [a, b] + row, e0)
+            errs.append(check_value(v, ref, mag, entry="env-sandwich:" + entry, mode=mode, row=i,
+                                    equalize=repr(kw.get("equalize_norms", False)), dense=bool(kw.get("dense")),
+                                    layered=lat.get("layers", 1) == 2))
+    cls = lat_classes(lat) + ["mode=" + mode, "entry=" + entry, "binding" if binding else "exact"]
+    cls += ["opt:" + k for k in sorted(case["opts"])] + (["subrange"] if case.get("xrange") or case.get("yrange") else [])
+    if binding:
+        cls.append("capbonds=%d" % min(nb_total, 9))
+    return {"nt": lat_nontrivial(lat, len(sides)) and (not binding or nb_total > 0), "cls": cls, "err": max(errs)}
+
+
+@st.composite
+def s_env_plaq(draw, tier):
+    # open lattices only: the plaquette code picks the bordering tensors with valid_coo() (no wrap-around), i.e. periodic
+    # directions are not supported there
+    mode, lat = draw(s_mode_lat(tier, modes=ENV_MODES, allow_cyclic=False))
+    xb = draw(st.integers(1, min(2 if tier == "quick" else 3, lat["Lx"])))
+    yb = draw(st.integers(1, min(2 if tier == "quick" else 3, lat["Ly"])))
+    o = {}
+    if draw(st.booleans()):
+        o["canonize"] = draw(st.booleans())
+    if mode != "full-bond" and draw(st.integers(0, 2)) == 0:
+        o["equalize_norms"] = draw(st.sampled_from([True, 1.0, False]))
+    if lat.get("layers", 1) == 2 and mode not in ("full-bond", "projector2d") and draw(st.booleans()):
+        o["layer_tags"] = ["KET", "BRA"]
+    fc = draw(st.sampled_from([None, None, "x", "y"]))
+    if fc is not None:
+        o["first_contract"] = fc
+    sd = draw(st.sampled_from([None, None, True, False]))
+    if sd is not None:
+        o["second_dense"] = sd
+    case = {"lat": lat, "mode": mode, "x_bsz": xb, "y_bsz": yb, "opts": o}
+    if mode in SEEDED:
+        case["seed"] = draw(st.integers(0, 2**31 - 1))
+    return case
+
+
+def run_env_plaq(case):
+    lat, mode = case["lat"], case["mode"]
+    qtn = Q()
+    tn = build2d(lat)
+    ref, mag = reference(tn)
+    e0 = float(np.real(tn.exponent))
+    kw = boundary_kwargs(case)
+    xb, yb = int(case["x_bsz"]), int(case["y_bsz"])
+    with rejecting(NotImplementedError, tag="unsupported:"):
+        penvs = tn.compute_plaquette_environments(x_bsz=xb, y_bsz=yb, max_bond=chi_exact(lat), cutoff=0.0, mode=mode, **kw)
+    want = {((i, j), (xb, yb)) for i in range(lat["Lx"] - xb + 1) for j in range(lat["Ly"] - yb + 1)}
+    if lat.get("cx") or lat.get("cy"):
+        got = set(penvs)
+        if not want <= got:
+            raise Violation("plaquette-keys", missing=len(want - got), mode=mode)
+    elif set(penvs) != want:
+        raise Violation("plaquette-keys", got=len(penvs), want=len(want), mode=mode)
+    errs = [0.0]
+    for ((i0, j0), _) in sorted(want):
+        env = penvs[(i0, j0), (xb, yb)]
+        inside = {(i0 + a, j0 + b) for a in range(xb) for b in range(yb)}
+        plq = [t for t in tn if site_coords(t) & inside]
+        _, absorbed = complement_of(tn, env)
+        if absorbed & inside:
+            raise Violation("plaquette-env-holds-plaquette", key=[i0, j0], mode=mode)
+        v = env_value(tn, [env] + plq, e0)
+        errs.append(check_value(v, ref, mag, entry="env:plaquette", mode=mode, bsz=[xb, yb],
+                                equalize=repr(kw.get("equalize_norms", False)), layered=lat.get("layers", 1) == 2,
+                                cyclic=bool(lat.get("cx") or lat.get("cy")), first=kw.get("first_contract"),
+                                second_dense=kw.get("second_dense")))
+    cls = lat_classes(lat) + ["mode=" + mode, "bsz=%dx%d" % (xb, yb), "nplaq=%d" % min(len(want), 9)]
+    cls += ["opt:%s=%s" % (k, kw[k]) if k in ("first_contract", "second_dense") else "opt:" + k for k in sorted(case["opts"])]
+    return {"nt": lat_nontrivial(lat, 2), "cls": cls, "err": max(errs)}
+
+
 SUBCHECKS = []
 for _g in B2D_GROUPS:
     SUBCHECKS.append(SubCheck(
@@ -782,4 +979,15 @@ SUBCHECKS += [
     SubCheck("cap2d.boundary", run_cap_boundary, s_cap_boundary, examples=(60, 1500), shards=(1, 4),
              rule="contract_boundary / contract_ctmrg(final_contract=False) on open lattices with a binding cap (< D_layer**2): "
                   "every bond along a boundary line of the returned network <= cap; nt: >=1 such bond"),
+]
+
+SUBCHECKS += [
+    SubCheck("env2d.rowcol", run_env_rowcol, s_env_rowcol, examples=(60, 1500), shards=(1, 4),
+             rule="compute_environments / compute_{xmin,xmax,ymin,ymax}_environments / compute_x|y_environments (modes, dense, "
+                  "layer_tags, equalize_norms, sub-ranges, caller-supplied dict): exactly one key per row; untruncated: every "
+                  "env | excluded part == whole and envs[min,i] | row i | envs[max,i] == whole; binding cap: bonds along every "
+                  "stored boundary <= cap; nt as RULE"),
+    SubCheck("env2d.plaquette", run_env_plaq, s_env_plaq, examples=(40, 1000), shards=(1, 4),
+             rule="compute_plaquette_environments(x_bsz, y_bsz in 1..2(3), first_contract, second_dense, modes), untruncated: one "
+                  "key per plaquette position and every env | plaquette sites == whole; nt as RULE"),
 ]
